@@ -6,7 +6,7 @@
 //! UNWIND_EXTRA: 3
 //! KIND: harness (concrete queue shape and fairness, symbolic permits / request sizes / remaining state)
 //! BOUNDED: N acquire futures; every queue shape enumerated; permits and requests < 8
-use super::super::kani_verif::{apply, kit, queue_ok, shape, wake_rule, HasNode, Shape, N};
+use super::super::kani_verif::{apply, head_served, kit, queue_ok, shape, wake_rule, HasNode, Shape, N};
 use super::*;
 use crate::intrusive_double_linked_list::kani_verif as lv;
 use core::mem::ManuallyDrop;
@@ -81,8 +81,10 @@ fn check_shared_drop_future(fair: bool, st: [u8; N], queue: &[usize]) {
     let i = 0;
     let mut w = sworld(fair, st, queue);
     unsafe { slink(&mut w) };
+    let served_before = head_served(&w.futs, &w.sem.state.lock(), N);
     unsafe { ManuallyDrop::drop(&mut w.futs[i]) };
     let st = w.sem.state.lock();
+    assert!(!served_before || head_served(&w.futs, &st, i), "[C06] cancelling any shared future leaves the longest-waiting request served: it holds a wake-up or does not fit");
     assert!(!lv::contains(&st.waiters, &w.futs[i].wait_node), "[C01] a dropped future is no longer in the wait queue");
     assert!(st.permits == w.sh.permits, "[C05] cancelling takes and returns no permits");
     assert!(wake_rule(&w.sh, &w.futs, i), "[C06] every request notified by a cancellation is woken exactly once; nobody else is woken");
@@ -93,6 +95,7 @@ fn check_shared_releaser(fair: bool, st: [u8; N], queue: &[usize]) {
     unsafe { slink(&mut w) };
     let p: usize = kani::any();
     kani::assume(p < 8);
+    let served_before = head_served(&w.futs, &w.sem.state.lock(), N);
     let mut rel = GenericSharedSemaphoreReleaser::<NoopLock> { semaphore: w.sem.clone(), permits: p };
     let disarm: bool = kani::any();
     if disarm {
@@ -102,6 +105,7 @@ fn check_shared_releaser(fair: bool, st: [u8; N], queue: &[usize]) {
     drop(rel);
     assert!(w.sem.permits() == w.sh.permits + (if disarm { 0 } else { p }), "[C05] dropping a shared releaser returns exactly its permits exactly once (zero after disarm)");
     assert!(wake_rule(&w.sh, &w.futs, N), "[C06] every request notified when a releaser is dropped is woken exactly once; nobody else is woken");
+    assert!(!served_before || head_served(&w.futs, &w.sem.state.lock(), N), "[C06] after a shared releaser is dropped the longest-waiting request is not stranded: it holds a wake-up or does not fit");
 }
 
 
